@@ -40,6 +40,7 @@ class FnInfo:
         self.qual, self.module, self.cls, self.node = qual, module, cls, node
         self.shared, self.arg, self.selfw, self.unknown, self.calls = [], [], [], [], []
         self.self_calls = []   # (method name, receiver kind) for method calls on self / self.attr / fresh / param receivers
+        self.written_params = set()   # names of the parameters written through
 
 
 def base_name(expr):
@@ -78,6 +79,7 @@ class Analyzer:
         for f in list(self.fns.values()):
             if f.qual not in self.analyzed:
                 self.analyze_fn(f)
+        self.close_arg_writes()
         self.close_self_writes()
 
     # -- module level -----------------------------------------------------
@@ -231,6 +233,9 @@ class Analyzer:
             f.shared.append(desc)
         elif cat == "param":
             f.arg.append(desc)
+            nm, _ = base_name(target_expr)
+            if nm:
+                f.written_params.add(nm)
         elif cat == "self":
             f.selfw.append(desc)
         elif cat == "unknown":
@@ -261,7 +266,7 @@ class Analyzer:
                         self.record_write(f, n.args[0], env, f"{fn.id}() on")
                     elif fn.id in DYNAMIC:
                         f.unknown.append(f"dynamic {fn.id}()")
-                    f.calls.append(("name", fn.id, None))
+                    f.calls.append(("name", fn.id, [(None, self.classify(f, a, env)) for a in n.args] + [(k.arg, self.classify(f, k.value, env)) for k in n.keywords]))
                 elif isinstance(fn, ast.Attribute):
                     if fn.attr in MUTATORS:
                         self.record_write(f, fn.value, env, f"mutating call .{fn.attr}() on")
@@ -396,6 +401,37 @@ class Analyzer:
     def method_candidates(self, name):
         return [g for g in self.fns.values() if g.cls and g.node.name == name]
 
+    def close_arg_writes(self):
+        """A private helper function (leading underscore, module level) that writes through one of its parameters and is called by
+        name inside the package is judged through its callers: each caller is charged according to what it passes - a fresh
+        object (a cipher context it has just created, a new bytearray): nothing; one of its own parameters: an argument
+        write; a module-level object: a shared write; `self`: a self write. The helper's own record then carries no argument
+        write (see `emit`). Iterated to a fixed point, so chains of helpers are followed."""
+        changed = True
+        while changed:
+            changed = False
+            for f in self.fns.values():
+                for call in f.calls:
+                    if call[0] != "name" or not isinstance(call[2], list):
+                        continue
+                    cands = [g for g in self.fns.values() if g.cls is None and g.module == f.module and g.node.name == call[1]]
+                    for g in cands:
+                        if not g.arg:
+                            continue
+                        pnames = [a.arg for a in g.node.args.args]
+                        for pos, (kw, cat) in enumerate(call[2]):
+                            pname = kw if kw is not None else (pnames[pos] if pos < len(pnames) else None)
+                            if pname is not None and g.written_params and pname not in g.written_params:
+                                continue          # this argument lands in a parameter the helper does not write through
+                            tgt = {"self": f.selfw, "param": f.arg, "global": f.shared, "unknown": f.unknown}.get(cat)
+                            desc = f"call of argument-writing helper {g.node.name}() with a {cat} object"
+                            if tgt is not None and desc not in tgt:
+                                tgt.append(desc)
+                                if cat == "param":
+                                    # which of the caller's own parameters: the names in the argument expression are not kept; mark all as suspect
+                                    f.written_params.update(a.arg for a in f.node.args.args)
+                                changed = True
+
     def close_self_writes(self):
         """a method call on `self` / `self.<attr>` of a method that writes its own `self` is a self write;
         on a parameter receiver it is an argument write; on a module-level object a shared write."""
@@ -440,6 +476,7 @@ def emit(an, path):
     # write, so that renaming or extracting private helpers of the permitted mutators changes nothing. A private method that
     # is never called by name (reached through a dispatch table only) keeps its record and is judged directly.
     called = {name for g in an.fns.values() for kind, name, _ in g.calls if kind == "attr"}
+    called_by_name = {name for g in an.fns.values() for kind, name, _ in g.calls if kind == "name"}
     for q in sorted(an.fns):
         f = an.fns[q]
         leaf = q.split(".")[-1] if not q.endswith((".setter", ".getter", ".deleter")) else q.split(".")[-2]
@@ -448,6 +485,10 @@ def emit(an, path):
             f = FnInfo(f.qual, f.module, f.cls, f.node)
             g = an.fns[q]
             f.shared, f.arg, f.unknown, f.selfw = g.shared, g.arg, g.unknown, []
+        elif private and f.cls is None and leaf in called_by_name and "<locals>" not in q:
+            f = FnInfo(f.qual, f.module, f.cls, f.node)
+            g = an.fns[q]
+            f.shared, f.arg, f.unknown, f.selfw = g.shared, [], g.unknown, g.selfw
         rows.append(f"  {{ name := {lean_str(q)}, sharedWrites := {lean_list(sorted(set(f.shared)))}, argWrites := {lean_list(sorted(set(f.arg)))}, "
                     f"selfWrites := {lean_list(sorted(set(f.selfw)))}, unknown := {lean_list(sorted(set(f.unknown)))} }}")
     lines.append(",\n".join(rows))
